@@ -239,17 +239,52 @@ def upToVeto {ρ : Type} (T : Nat) (ev : EventNo) : List (Plugin × Call ρ) →
 
 /-! ## Classification of what a call returns (plugin.go `isFatalError`) -/
 
-/-- the errors `p.impl.X(ctx, req)` can return, by the way they arise -/
+/-- rpc status codes that matter here (the rest is `other`) -/
+inductive Code
+  | unknown | canceled | deadlineExceeded | unavailable | resourceExhausted
+  | outOfRange | failedPrecondition | other
+  deriving DecidableEq, Repr
+
+/-- The errors `p.impl.X(ctx, req)` can return AS THE RUNTIME SEES THEM, by the way they arise.
+    Whatever a plugin's handler returns arrives as `status code msg` (see `onWire`); the other
+    constructors are produced on the runtime's side of the connection. -/
 inductive CallErr
   | ttrpcClosed        -- ttrpc.ErrClosed: connection closed / reset / EOF as ttRPC reports it
   | serverClosed       -- ttrpc.ErrServerClosed
   | protocol           -- ttrpc.ErrProtocol: unexpected message type
   | deadline           -- context.DeadlineExceeded: no answer within the request timeout
-  | status (msg : Str) -- an rpc status error: what the plugin's handler returned
+  | status (code : Code) (msg : Str) -- an rpc status error: what the plugin's handler returned
   | canceled           -- context.Canceled: the CALLER gave up
   | undecodable        -- the reply does not decode (protobuf error from the client's Unmarshal)
   | truncatedFrame     -- io.ErrUnexpectedEOF from the multiplexer: connection cut inside a frame
   deriving DecidableEq, Repr
+
+/-- What a plugin's HANDLER may return (a Go error value), as far as the plugin-side ttRPC
+    server distinguishes: a status error keeps its code; a few sentinel values are mapped by
+    `convertCode` (ttrpc services.go, compared with `==`); everything else — `ttrpc.ErrClosed`,
+    `ttrpc.ErrServerClosed`, `ttrpc.ErrProtocol`, wrapped errors, errors whose text merely looks
+    like a decoding failure — becomes `Unknown`. -/
+inductive HandlerErr
+  | ctxDeadline        -- context.DeadlineExceeded returned by the handler
+  | ctxCanceled        -- context.Canceled returned by the handler
+  | eof                -- io.EOF
+  | unexpectedEOF      -- io.ErrUnexpectedEOF (also ErrClosedPipe, ErrShortWrite, …)
+  | status (code : Code)
+  | anyOther
+  deriving DecidableEq, Repr
+
+def convertCode : HandlerErr → Code
+  | .ctxDeadline => .deadlineExceeded
+  | .ctxCanceled => .canceled
+  | .eof => .outOfRange
+  | .unexpectedEOF => .failedPrecondition
+  | .status c => c
+  | .anyOther => .unknown
+
+/-- the ttRPC round trip: server `status.New(convertCode(err), err.Error())`, client
+    `status.ErrorProto`: a handler's error reaches the runtime as a status error and as nothing
+    else — in particular never as the Go sentinel value it may have been at the plugin -/
+def onWire (h : HandlerErr) (msg : Str) : CallErr := .status (convertCode h) msg
 
 /-- `isFatalError` as it stands in plugin.go -/
 def isFatalError : CallErr → Option Fatal
@@ -266,8 +301,14 @@ def isFatalErrorFixed : CallErr → Option Fatal
   | .truncatedFrame => some .closed
   | e => isFatalError e
 
+/-- a variant that also treats the status code DeadlineExceeded as a failure of the connection
+    (a seeded breakage the check must catch; used only in an `example`) -/
+def isFatalErrorStatusDeadline : CallErr → Option Fatal
+  | .status .deadlineExceeded _ => some .timeout
+  | e => isFatalErrorFixed e
+
 def errText : CallErr → Str
-  | .status m => m
+  | .status _ m => m
   | _ => []
 
 /-- from the value a call returns to the outcome the loop acts on -/
@@ -280,7 +321,7 @@ def classify {ρ : Type} (fatal : CallErr → Option Fatal) : Except CallErr ρ 
 /-- the errors that mean "the plugin disconnected, broke the protocol or did not answer in
     time" — everything except the handler's own error and the caller's cancellation -/
 def pluginFailure : CallErr → Bool
-  | .status _ => false
+  | .status _ _ => false
   | .canceled => false
   | _ => true
 
